@@ -8,6 +8,9 @@
    K2 (unary under unary) and K6 (field name before `<`) were in the class until 98d650f / 98c0b1b. *)
 From Coq Require Import List Arith Bool NArith ZArith String.
 Import ListNotations.
+(* the full model first: the names it shares with the fragment model (tok, TOp, not_lt, ..) then denote the fragment's *)
+From SV Require Import C08.FSyntax C08.FModelTypes C08.FModelExpr C08.FModelDecl C08.FProofsGen C08.FProofsTypes C08.FProofsExprFuel
+  C08.FProofsExpr C08.FProofsImpl C08.FProofsDecl.
 From SV Require Import C08.Syntax C08.Model C08.Proofs C08.ProofsImpl C08.Layout C08.LayoutProofs C08.Lit C08.LitProofs.
 
 (* the grammar's own minimal-parenthesis printer is read back by the parser's level structure *)
@@ -121,7 +124,121 @@ Theorem C08_K5_repaired : gate POther 2147483648 = IErr /\ gate PNone 2147483648
   gate_pinned POther 2147483648 = ITok 2147483648 /\ lit_value (gate_pinned POther 2147483648) = Some 0%Z.
 Proof. exact K5_repaired. Qed.
 
+(* ================================================================== the FULL model (F*.v)
+   Expressions with n-ary calls, tuples (incl. the parser's `( id ..` cover grammar), multi-arm match with
+   patterns, multi-parameter lambdas with optional annotations, blocks with `let` / expression statements,
+   if / else-if chains with `if let`, field access with explicit type arguments, literals; patterns; type
+   annotations.  The parser takes its fuel from the input; C08_parse_fuel_sufficient says every larger fuel
+   gives the same answer (also when that answer is "syntax error").
+
+   Full statement on this model:  forall tps e, fwf tps e = true -> parse_fexpr tps (fimpl e) = Some e
+   (fwf = the trees the parser can produce).  FALSE (C08_full_impl_roundtrip_refuted); proved outside the same
+   decidable class (some node is K1 or K3). *)
+
+(* type annotations: the printed form is read back to the canonical form (Generic / Id decided by the type
+   parameters in scope), for every annotation and every continuation that does not start with `<` *)
+Theorem C08_annot_roundtrip : forall tps a rest, FProofsTypes.not_lt rest ->
+  parse_annot tps (pr_annot a ++ rest) = Some (canon tps a, rest).
+Proof. exact annot_roundtrip'. Qed.
+
+Theorem C08_annot_fuel_sufficient : forall tps f ts, List.length ts < f -> annot_go tps f ts = parse_annot tps ts.
+Proof. exact annot_fuel_sufficient. Qed.
+
+(* patterns: wildcard, identifier, tuple, object with shorthand and `as`, variant with payload, or-patterns *)
+Theorem C08_pattern_roundtrip : forall p rest, wf_pat p = true -> pat_fol rest ->
+  parse_pat (pr_pat p ++ rest) = Some (p, rest).
+Proof. exact pattern_roundtrip. Qed.
+
+Theorem C08_pattern_fuel_sufficient : forall f ts, List.length ts < f -> pat_go f ts = parse_pat ts.
+Proof. exact pat_fuel_sufficient. Qed.
+
+(* expressions: explicit sufficient fuel, as a function of the token count (40 * tokens + rank of the entry
+   point + 1, rank <= 30); the answer is the same for every fuel above it *)
+Theorem C08_parse_fuel_sufficient : forall tps f m ts, mu m ts < f -> ego tps f m ts = pmode tps m ts.
+Proof. exact parse_fuel_sufficient. Qed.
+
+Theorem C08_parse_fuel_bound : forall m ts, mu m ts <= 40 * List.length ts + 30.
+Proof. intros m ts. unfold mu. pose proof (rank_bound m). apply Nat.add_le_mono_l. assumption. Qed.
+
+(* any printer that puts at least the needed parentheses is read back, on every tree the parser can produce *)
+Theorem C08_full_sufficient_parentheses_roundtrip : forall tps dec e, fsuff dec e = true -> fwf tps e = true ->
+  parse_fexpr tps (fpr dec e) = Some e.
+Proof. exact fpr_roundtrip. Qed.
+
+Theorem C08_full_reference_roundtrip : forall tps e, fwf tps e = true -> parse_fexpr tps (fpr fdec_ref e) = Some e.
+Proof. exact fref_roundtrip. Qed.
+
+Theorem C08_full_impl_roundtrip_outside_known : forall tps e, fknown e = false -> fwf tps e = true ->
+  parse_fexpr tps (fimpl e) = Some e.
+Proof. exact fimpl_roundtrip_outside_known. Qed.
+
+Theorem C08_full_known_class_exact : forall e, fsafe e = negb (fknown e).
+Proof. exact fsafe_known. Qed.
+
+Theorem C08_full_impl_roundtrip_refuted : exists e, fwf [] e = true /\ parse_fexpr [] (fimpl e) <> Some e.
+Proof. exact fimpl_roundtrip_refuted. Qed.
+
+Theorem C08_full_K1_witness :
+  fknown fwitness = true /\ fwf [] fwitness = true /\ parse_fexpr [] (fimpl fwitness) = Some fwitness_back.
+Proof. exact fK1_witness. Qed.
+
+Theorem C08_full_format_idempotent : forall tps e, fknown e = false -> fwf tps e = true ->
+  forall e', parse_fexpr tps (fimpl e) = Some e' -> fimpl e' = fimpl e.
+Proof. exact fimpl_idempotent. Qed.
+
+(* ---- declarations and modules.  parse_module has no fuel of its own (loops over the input; expressions through
+   parse_expression).  The formatted module is read back as the module with its import lines organised (merged per
+   module, modules and members sorted) and the SAME toplevels: type parameters with bounds, extends / implements lists,
+   struct fields with val / private val, enum variants, members (function / method, private, type parameters,
+   parameters, return type, body), interfaces. *)
+Theorem C08_module_roundtrip : forall dec m, module_ok m = true -> module_suff dec m = true ->
+  parse_module (pr_module dec m) = Some (organise (fst m), snd m).
+Proof. exact module_roundtrip. Qed.
+
+Theorem C08_module_roundtrip_outside_known : forall m, module_ok m = true -> module_known m = false ->
+  parse_module (fimpl_module m) = Some (organise (fst m), snd m).
+Proof. exact module_roundtrip_outside_known. Qed.
+
+(* the documented normalisation of imports is harmless: same names from the same modules, and - unless a name is
+   imported from two different modules (K7) - every name resolves to the same module *)
+Theorem C08_resolve_organise : forall imps, import_conflict imps = false -> forall n, resolve (organise imps) n = resolve imps n.
+Proof. exact resolve_organise. Qed.
+
+Theorem C08_module_denotation_preserved : forall m, module_ok m = true -> module_known m = false -> import_conflict (fst m) = false ->
+  exists m', parse_module (fimpl_module m) = Some m' /\ snd m' = snd m
+             /\ (forall n md, owns (fst m') n md <-> owns (fst m) n md)
+             /\ (forall n, resolve (fst m') n = resolve (fst m) n).
+Proof. exact module_denotation_preserved. Qed.
+
+(* full statement without the K7 exclusion: FALSE of the faithful model *)
+Theorem C08_module_denotation_refuted : exists m, module_ok m = true /\ module_known m = false /\
+  forall m', parse_module (fimpl_module m) = Some m' -> exists n, resolve (fst m') n <> resolve (fst m) n.
+Proof. exact module_denotation_refuted. Qed.
+
+Theorem C08_K7_witness : module_ok k7_module = true /\ module_known k7_module = false /\ import_conflict (fst k7_module) = true /\
+  parse_module (fimpl_module k7_module) = Some ([([10], [(false, 11)]); ([10], [(false, 12)])], []) /\
+  resolve (fst k7_module) 10 = Some [(false, 11)] /\ resolve [([10], [(false, 11)]); ([10], [(false, 12)])] 10 = Some [(false, 12)].
+Proof. exact K7_witness. Qed.
+
 (* ---- non-vacuity *)
+Definition C08_sample_module : module :=
+  ([([12; 11], [(false, 13); (true, 10)]); ([14], [(false, 12)]); ([10], [(false, 13); (true, 10)])],
+   [TClass false 1 [(7, None); (8, Some (2, [AGen 7; AId 3 [AId 7 []]]))] (TDStruct [(true, 0, AGen 7); (false, 1, AFn [APrim PInt] (AGen 8))])
+      [(4, [AGen 7]); (5, [])]
+      [({| m_public := true; m_method := true; m_name := 2; m_tparams := [(9, None)]; m_params := [(3, AGen 9); (4, AId 6 [AGen 7])]; m_ret := AGen 8 |}, fsample);
+       ({| m_public := false; m_method := false; m_name := 3; m_tparams := []; m_params := []; m_ret := AId 7 [] |}, XBlock [] None)];
+    TInterface true 2 [] [(5, [APrim PBool])] [{| m_public := true; m_method := true; m_name := 1; m_tparams := []; m_params := [(0, APrim PInt)]; m_ret := APrim PUnit |}];
+    TClass true 3 [] (TDEnum [(1, []); (2, [APrim PInt; AId 1 []])]) [] []]).
+Example C08_nonvacuous_module :
+  module_ok C08_sample_module = true /\ module_known C08_sample_module = false /\ import_conflict (fst C08_sample_module) = false /\
+  parse_module (fimpl_module C08_sample_module) = Some (organise (fst C08_sample_module), snd C08_sample_module) /\
+  organise (fst C08_sample_module) = [([14], [(false, 12)]); ([10; 11; 12], [(false, 13); (true, 10)])].
+Proof. vm_compute. repeat split. Qed.
+
+Example C08_nonvacuous_full :
+  fknown fsample = false /\ fwf [7] fsample = true /\ parse_fexpr [7] (fimpl fsample) = Some fsample /\ List.length (fimpl fsample) = 112.
+Proof. exact fsample_ok. Qed.
+
 Example C08_nonvacuous_expr :
   let e := Bin Or (Bin And xa (Un Not (Field xb 1))) (Bin Lt (Bin Plus xa (Bin Mul (Call xb xc) xc)) (Bin Minus xa (Bin Minus xb xc))) in
   known_C08 e = false /\ parse_expr 200 (impl e) = Some e /\ List.length (impl e) = 23.
@@ -157,3 +274,22 @@ Print Assumptions C08_int_literal_value.
 Print Assumptions C08_int_min_literal.
 Print Assumptions C08_int_text_preserved.
 Print Assumptions C08_K5_repaired.
+Print Assumptions C08_annot_roundtrip.
+Print Assumptions C08_annot_fuel_sufficient.
+Print Assumptions C08_pattern_roundtrip.
+Print Assumptions C08_pattern_fuel_sufficient.
+Print Assumptions C08_parse_fuel_sufficient.
+Print Assumptions C08_parse_fuel_bound.
+Print Assumptions C08_full_sufficient_parentheses_roundtrip.
+Print Assumptions C08_full_reference_roundtrip.
+Print Assumptions C08_full_impl_roundtrip_outside_known.
+Print Assumptions C08_full_known_class_exact.
+Print Assumptions C08_full_impl_roundtrip_refuted.
+Print Assumptions C08_full_K1_witness.
+Print Assumptions C08_full_format_idempotent.
+Print Assumptions C08_module_roundtrip.
+Print Assumptions C08_module_roundtrip_outside_known.
+Print Assumptions C08_resolve_organise.
+Print Assumptions C08_module_denotation_preserved.
+Print Assumptions C08_module_denotation_refuted.
+Print Assumptions C08_K7_witness.
